@@ -245,10 +245,10 @@ func run() int {
 	if workers == 0 {
 		workers = runtime.NumCPU()
 	}
-	opt := sym.RunOptions{Workers: workers, MaxPaths: 200000, MaxSteps: 3000000, MaxDecisions: 4000, QueryTimeout: 10000, SolverBin: *flagSolver, Debug: *flagDebug, TraceCalls: *flagTrace}
+	opt := sym.RunOptions{Workers: workers, MaxPaths: 200000, MaxSteps: 3000000, MaxDecisions: 4000, QueryTimeout: 60000, SolverBin: *flagSolver, Debug: *flagDebug, TraceCalls: *flagTrace}
 	if tier == "thorough" {
 		opt.MaxPaths = 3000000
-		opt.QueryTimeout = 60000
+		opt.QueryTimeout = 180000
 	}
 	if *flagMaxPaths > 0 {
 		opt.MaxPaths = *flagMaxPaths
